@@ -27,7 +27,7 @@ RULE = (
 )
 
 KINDS = ["grad1", "nested", "fwd_rev", "rev_fwd", "hvp", "jacobian", "nested3", "nested_jvp", "nested_twice", "two_calls",
-         "shared_tjp", "shared_hvp_twice", "shared_grad", "grad1_bwd", "nested_bwd", "shared_jvp", "shared_args"]
+         "shared_tjp", "shared_hvp_twice", "shared_grad", "grad1_bwd", "nested_bwd", "shared_jvp", "shared_args", "shared_ckpt"]
 
 _TLS = __import__("threading").local()
 _SHARED = {}
@@ -87,7 +87,7 @@ def shared_ops():
 
         _SHARED.update(tjp=do.tensor_jacobian_product(f), hvp=autograd.hessian_vector_product(fs), grad=autograd.grad(fs),
                        vag=autograd.value_and_grad(fs), jac=autograd.jacobian(f), mjvp=autograd.make_jvp(fs),
-                       gradk=autograd.grad(fk), egradk=autograd.elementwise_grad(fk), mjvpk=autograd.make_jvp(fk))
+                       gradk=autograd.grad(fk), egradk=autograd.elementwise_grad(fk), mjvpk=autograd.make_jvp(fk), ck=autograd.checkpoint(f))
     return _SHARED
 
 
@@ -202,6 +202,20 @@ def make_prog(kind, a):
             r = autograd.grad(outer)(1.0 + a)
             s.yp()
             return conv(r)
+    elif kind == "shared_ckpt":
+        def prog(s):
+            # one checkpointed function object (decorator style) used by every thread on its own data; its VJP is pulled back several times
+            ops = shared_ops()
+            x0 = onp.array([0.2, -0.4, 0.6, 1.1]) * (1.0 + a)
+            v = onp.array([1.0, 0.5, -1.0, 2.0]) * (0.5 + a)
+            jac = autograd.jacobian(lambda t: ops["ck"](t, a) * (1.0 + a))(x0)
+            s.yp()
+            vjp, y = autograd.make_vjp(lambda t: ops["ck"](anp.sin(t), 2.0 * a))(x0)
+            s.yp()
+            r1 = vjp(v)
+            s.yp()
+            r2 = vjp(2.0 * v)
+            return conv(onp.concatenate([onp.ravel(jac), r1, r2, y]))
     elif kind in ("shared_jvp", "shared_args"):
         def prog(s):
             ops = shared_ops()
@@ -334,6 +348,8 @@ def run_case(kinds, params, schedule):
 def body(c):
     n = c.int(2, 4)
     kinds = [KINDS[c.int(0, len(KINDS) - 1)] for _ in range(n)]
+    if c.chance(1, 3):
+        kinds = [kinds[0]] * n  # every thread runs the same kind of program (on its own data): shared operator objects meet themselves
     params = [c.choice([0.25, 0.5, 0.75, 1.25]) for _ in range(n)]
     schedule = [c.int(0, n - 1) for _ in range(c.int(0, 40))]
     sample = {"kinds": kinds, "params": params, "schedule": schedule}
@@ -381,6 +397,8 @@ def fine_body(c):
     (thread, run length) pairs."""
     n = c.int(2, 3)
     kinds = [KINDS[c.int(0, len(KINDS) - 1)] for _ in range(n)]
+    if c.chance(1, 3):
+        kinds = [kinds[0]] * n
     params = [c.choice([0.25, 0.5, 0.75, 1.25]) for _ in range(n)]
     schedule = [(c.int(0, n - 1), c.int(1, 60)) for _ in range(c.int(1, 40))]
     sample = {"kinds": kinds, "params": params, "schedule": [list(p) for p in schedule], "fine": True}
@@ -448,7 +466,7 @@ def sweep(tier, seed):
             rel = os.path.join("replays", "C20", f"sweep-{kinds[0]}-{kinds[1]}.json")
             with open(os.path.join(env.OUT_DIR, rel), "w") as f:
                 plist = [0.25, 0.5, 0.75, 1.25]
-                choices = [2] + [KINDS.index(k) for k in kinds] + [plist.index(a) for a in params] + [len(bad)] + bad
+                choices = [2] + [KINDS.index(k) for k in kinds] + [0] + [plist.index(a) for a in params] + [len(bad)] + bad  # [0]: not "same kind"
                 json.dump({"property": "C20", "test": "threads", "choices": choices, "kinds": kinds, "params": params, "schedule": bad}, f)
             viols.append(("C20|sweep|interference", rel, f"exhaustive sweep: pair {kinds} schedule {bad} makes a thread's result differ from its solo run"))
     extra = {"exhaustive": True, "exhaustive_subspace": f"all {2 ** length} schedules of length {length} for {len(pairs)} canonical 2-thread pairs",
